@@ -254,6 +254,63 @@ Definition write_new_file (path : positive) (chunks : list bytes) (fin : ctl) (w
                              end) w
   end.
 
+(* ================= pkg/api/form.go : form multi-fill, a multi-output transaction ================= *)
+(* rollbackMultiFillOutputs(outFiles): removeFile for every recorded file, all attempted (errors joined) *)
+Fixpoint rollback (outs : list positive) (w : world) : bool * world :=
+  match outs with
+  | [] => (false, w)
+  | p :: ps => let '(b1, w1) := remove_file p w in
+               let '(b2, w2) := rollback ps w1 in
+               (b1 || b2, w2)
+  end.
+
+(* one record of the data file: how its validation / filling ended before any output was opened
+   (p_early: an option value that is not among the options, no field affected, a panic, ...), the output
+   file of this record, what is written into it and how that write ends *)
+Record part := Part { p_early : ctl; p_out : positive; p_chunks : list bytes; p_fin : ctl }.
+
+(* the record loop of multiFillFormJSONWith / multiFillFormCSVWith:
+     for each record { outFile, fillErr := multiFillJSONForm / multiFillCSVRecord(...)   -- fill, then
+                          writeMultiFillOutputWith = openStagedOutput(nil, "", outFile); writeContext; cleanup | commit
+                       if outFile != "" { outFiles = append(outFiles, outFile) }; if fillErr != nil { return fillErr } }
+   k is the key of writeMultiFillOutputWith (from the table; not deferred today: KNone) *)
+Fixpoint fill_loop (k : key) (parts : list part) (done : list positive) (w : world) : ctl * list positive * world :=
+  match parts with
+  | [] => (COk, done, w)
+  | p :: ps =>
+      match p_early p with
+      | COk =>
+          match api_file k [] None (Some (p_out p)) (p_chunks p) (p_fin p) w with
+          | (COk, w') => fill_loop k ps (done ++ [p_out p]) w'
+          | (r, w') => (r, done, w')
+          end
+      | r => (r, done, w)
+      end
+  end.
+
+(* multiFillFormJSONWith / multiFillFormCSVWith(…, merge, …):
+     var outFiles []string
+     if merge { defer func() { err = errors.Join(err, rollbackMultiFillOutputs(outFiles)) }() }   -- before the loop
+     record loop
+     if merge { return mergeForms(…) = MergeCreateFile(outFiles, final) }                        -- flag-keyed *File skeleton
+   The deferred rollback runs on every exit of a merge-mode run: error, panic and success (the parts are
+   intermediates then).  In non-merge mode nothing is rolled back. *)
+Definition multi_fill (merge : bool) (k : key) (parts : list part) (final : positive)
+           (mchunks : list bytes) (mfin : ctl) (w : world) : ctl * world :=
+  let '(r, done, w1) := fill_loop k parts [] w in
+  if merge then
+    let '(r2, w2) := match r with
+                     | COk => api_file KFlag [] None (Some final) mchunks mfin w1
+                     | _ => (r, w1)
+                     end in
+    let '(bad, w3) := rollback done w2 in
+    (match r2 with
+     | CPanic => CPanic
+     | CErr => CErr
+     | COk => if bad then CErr else COk
+     end, w3)
+  else (r, w1).
+
 End Protocols.
 
 (* ---------- entry points for the correspondence harness (extracted) ---------- *)
